@@ -24,7 +24,7 @@ ASSUMPTIONS = [
     'L2/L3 answers (cache-only directories, size of a directory) make a re-execution undecidable: counted, not reported',
     'the oracle is skipped (and counted) on steps where C01/C04 already disagree',
 ]
-CFG = gen.cfg_with(probe_w=1, max_root=6, max_funcs=6, raise_w=1)
+CFG = gen.cfg_with(probe_w=1, max_root=6, max_funcs=6, raise_w=1, alt_roots_p=0.25, kwargs_p=0.15)
 
 
 def unobserved_paths(h, cfg):
